@@ -288,6 +288,19 @@ def policy(repo, tier):
                 reads_config = [x.id for x in _own(fn) if isinstance(x, ast.Name) and x.id == "_config"]
                 G(f"C15/{rel.split('/')[-1]}::{q}/memo#lru_cache-wrapped-function-has-no-side-effect-and-reads-no-mutable-config",
                   not stores and not attr_stores and not reads_config, f"globals={len(stores)} stores={len(attr_stores)} config-reads={len(reads_config)}", rel)
+    # H5b: module-level names rebound from inside functions (`global X`): flags, counters, configuration
+    rebinders = []
+    for rel, m in mods.items():
+        for q, fn in m.functions.items():
+            for n in _own(fn):
+                if isinstance(n, ast.Global):
+                    for nm in n.names:
+                        if any(isinstance(x, ast.Name) and x.id == nm and isinstance(x.ctx, ast.Store) for x in _own(fn)):
+                            rebinders.append(f"{rel.split('/')[-1]}::{q} rebinds global {nm}")
+    allowed = {"archive_extractor.py::configure_archive_extraction rebinds global _config"}
+    extra_g = sorted(set(rebinders) - allowed)
+    G("C15/package/policy#no-module-level-name-is-rebound-by-extraction-code", not extra_g,
+      "; ".join(extra_g) or f"{len(rebinders)} rebinding site(s), all in the reviewed list", "package")
     # H4: _config
     arch = mods[ARCH]
     writers = [q for q, fn in arch.functions.items() if any(isinstance(n, ast.Global) and "_config" in n.names for n in _own(fn))]
